@@ -1,4 +1,66 @@
-(** C09 — exported statements. *)
+(** C09 — queries and simulations never influence block execution.
+    This file holds only the exported statements.
+
+    Full statement (Spec.noninterference m): for every set of thread scripts, every initial store per
+    thread and EVERY schedule, the pointer and the whole deliver thread (committed store, accounts
+    written, tx failure flag, result/event log) are those of the run in which only the deliver thread
+    is scheduled.  It is proved for [Isolated] (request steps never dereference, publish or clear the
+    shared pointer) and refuted for [Shared] (the code as it is). *)
 From Coq Require Import List Bool Arith ZArith.
 Import ListNotations.
 Require Import Nib.C09.Model Nib.C09.Spec Nib.C09.Proofs.
+
+(** PARTIAL: the full statement for the sub-model [Isolated]; missing: the faithful [Shared] model (refuted below). *)
+Theorem C09_noninterference_partial : noninterference Isolated.
+Proof. exact noninterference_isolated. Qed.
+Print Assumptions C09_noninterference_partial.
+
+(** … and once the deliver thread has been scheduled as often as it has steps, that is the complete
+    sequential execution of the transaction: same committed balances, written accounts, tx result, pointer. *)
+Theorem C09_noninterference_partial_sequential :
+  forall (ths : list (list step)) (l0 : tid -> ledger) (sched : list tid),
+    length (nth 0 ths []) <= count0 sched ->
+    let seq := run Isolated (repeat 0%nat (length (nth 0 ths []))) (init ths l0) in
+    let got := run Isolated sched (init ths l0) in
+    committed got = committed seq /\ written got = written seq /\ tx_result got = tx_result seq /\ ptr got = ptr seq.
+Proof. exact isolated_equals_sequential. Qed.
+Print Assumptions C09_noninterference_partial_sequential.
+
+(** The faithful model violates the statement: 5 scheduling decisions
+    (deliver: open+publish; request: private StateDB; request: bank send X->Y; deliver: commit; deliver: clear). *)
+Theorem C09_noninterference_refuted :
+  ~ noninterference Shared /\
+  exists ths l0 sched, length sched = 5%nat /\
+    committed (run Shared sched (init ths l0)) <> committed (run Shared (deliver_only sched) (init ths l0)).
+Proof. exact (conj not_noninterference_shared noninterference_shared_refuted). Qed.
+Print Assumptions C09_noninterference_refuted.
+
+(** Characterisation: in the faithful model a schedule without hazard (a request step that performs a bank
+    operation while the pointer is published, or that itself publishes / clears the pointer) cannot
+    influence block execution. *)
+Theorem C09_interference_only_through_hazard :
+  forall ths l0 sched,
+    hazard_free (init ths l0) sched = true ->
+    same_block (run Shared sched (init ths l0)) (run Shared (deliver_only sched) (init ths l0)).
+Proof. exact interference_only_through_hazard. Qed.
+Print Assumptions C09_interference_only_through_hazard.
+
+(** For requests on a private StateDB (eth_call, estimateGas, traceTx, gRPC queries) the hazard is exactly:
+    a bank operation of the request executed while Keeper.Bank.StateDB is published. *)
+Theorem C09_hazard_is_bank_op_while_published :
+  forall st t, hazard st t = true -> private_script (pc (thr st t)) ->
+    t <> 0%nat /\ ptr st <> None /\ exists s rest, pc (thr st t) = s :: rest /\ is_bank_op s.
+Proof. exact hazard_is_bank_op_while_published. Qed.
+Print Assumptions C09_hazard_is_bank_op_while_published.
+
+(** The repair does not change what the deliver thread does when it runs alone. *)
+Theorem C09_deliver_alone_mode_irrelevant :
+  forall n a b, inv a -> inv b -> ptr a = ptr b -> thr a 0%nat = thr b 0%nat ->
+    same_block (run Shared (repeat 0%nat n) a) (run Isolated (repeat 0%nat n) b).
+Proof. exact deliver_alone_mode_irrelevant. Qed.
+Print Assumptions C09_deliver_alone_mode_irrelevant.
+
+(** The checker evaluated on implementation traces decides the observable form of the property. *)
+Theorem C09_checker_sound : forall o, Pb o = true -> P o.
+Proof. exact Pb_sound. Qed.
+Print Assumptions C09_checker_sound.
